@@ -605,6 +605,29 @@ class Gen:
             return spec, (exported or {"id": "int"})
         return spec
 
+    def orm_eager(self):
+        """ORM entity select with an eager / lazy loader option whose relationship carries criteria
+        (``Rel.and_(...)``) with bound values of every form (plain literal, anonymous bind, literal_execute
+        bind, callable bind)"""
+        r = self.rng
+        lk, rk, lc, rc, rel = r.choice(JOINS)
+        scope = [(lk, TABLE_COLS[lk])]
+        fl = r.choice([{}, {"literal_execute": True}, {"literal_execute": True}, {"callable": True}])
+        rhs = ["abind", "int", fl] if r.random() < 0.8 else ["lit", "int"]
+        crit = ["bin", r.choice(CMP), ["col", rk, r.choice([n for n, t in sorted(TABLE_COLS[rk].items()) if t == "int"])], rhs]
+        loader = r.choice(["selectinload", "subqueryload", "joinedload", "lazyload", "immediateload"])
+        where = []
+        c = r.random()
+        if c < 0.5:
+            where.append(["bin", r.choice(["<", ">", "!=", "=="]), ["col", lk, "id"], ["lit", "posint"]])
+        elif c < 0.7:
+            where.append(self.e_bool(scope, 1))
+        spec = {"k": "select", "orm": True, "from": [["ent", lk]], "joins": [], "cols": [["ent", lk]], "where": where,
+                "options": [[loader, ENTITY_OF[lk], rel, crit]], "order_by": [[["col", lk, "id"], "asc", None]]}
+        if r.random() < 0.3:
+            spec["limit"] = True
+        return spec
+
     def compound(self, d=1):
         r = self.rng
         key = r.choice(["a", "b"])
@@ -715,7 +738,8 @@ class Gen:
 
     def stmt(self, kinds=None):
         r = self.rng
-        k = r.choice(kinds or ["select"] * 10 + ["compound"] * 2 + ["insert"] * 3 + ["update"] * 3 + ["delete"] * 2 + ["text"])
+        k = r.choice(kinds or ["select"] * 10 + ["compound"] * 2 + ["insert"] * 3 + ["update"] * 3 + ["delete"] * 2 + ["text"] * 2
+                     + (["orm_eager"] * 3 if self.orm_ratio > 0 else []))
         if k == "select":
             return self.select()
         return getattr(self, k)()
@@ -1344,8 +1368,10 @@ def _node_mutations(node, rng, frommap=None, top=True):
             out.append(("unwrap_not", node[1]))
         elif h == "neg":
             out.append(("unwrap_neg", node[1]))
-        elif h in ("selectinload", "joinedload", "subqueryload", "lazyload", "noload", "raiseload"):
+        elif h in ("selectinload", "joinedload", "subqueryload", "lazyload", "noload", "raiseload", "immediateload"):
             out.append(("loader", [_other(rng, ["selectinload", "joinedload", "subqueryload", "lazyload", "raiseload"], h)] + node[1:]))
+            if len(node) > 3:
+                out.append(("criteria_drop", node[:3]))
         elif h in ("defer", "undefer", "load_only"):
             out.append(("colopt", [_other(rng, ["defer", "undefer", "load_only"], h)] + node[1:]))
         elif h == "loader_criteria":
@@ -1919,8 +1945,41 @@ def chain_ops(env, kind):
 
         return lst
 
+    txt = []
+
+    @op(txt, "bindparams")
+    def _(s, rng, v):
+        return s.bindparams(**{rng.choice(["p1", "p2"]): v.next("int")})
+
+    @op(txt, "bindparams")
+    def _(s, rng, v):
+        return s.bindparams(p1=v.next("int"), p2=v.next("int"))
+
+    @op(txt, "bindparams_typed")
+    def _(s, rng, v):
+        t = rng.choice([sa.Integer(), sa.Numeric(10, 2), sa.String(), sa.Float()])
+        val = v.next("str") if isinstance(t, sa.String) else v.next("int")
+        return s.bindparams(sa.bindparam(rng.choice(["p1", "p2"]), val, type_=t))
+
+    @op(txt, "columns")
+    def _(s, rng, v):
+        if not hasattr(s, "columns") or type(s).__name__ != "TextClause":
+            raise Inapplicable()
+        return s.columns(sa.column("id", sa.Integer), sa.column(rng.choice(["x", "q"]), rng.choice([sa.Integer, sa.Numeric(10, 0)])))
+
+    @op(txt, "execution_options")
+    def _(s, rng, v):
+        return s.execution_options(foo=v.next("int"))
+
+    @op(txt, "wrap_subquery")
+    def _(s, rng, v):
+        if type(s).__name__ != "TextualSelect":
+            raise Inapplicable()
+        sq = s.subquery("tw%d" % rng.randint(1, 3))
+        return sa.select(sq).where(sa.literal(v.next("int")) != v.next("int"))
+
     return {"select": sel, "compound": comp, "insert": dml_ops("insert"), "update": dml_ops("update"),
-            "delete": dml_ops("delete"), "text": []}[kind]
+            "delete": dml_ops("delete"), "text": txt}[kind]
 
 
 def stmt_kind(stmt):
@@ -1937,3 +1996,177 @@ def stmt_kind(stmt):
     if getattr(stmt, "is_select", False):
         return "select"
     return "text"
+
+
+def query_ops(env):
+    """(name, fn(query, rng, vals) -> Query) for legacy ``Session.query()`` generative chains"""
+    sa = env.sa
+    orm = env.orm
+    E = env.entities
+    A, B, C = E["A"], E["B"], E["C"]
+    ops = []
+
+    def op(name):
+        def deco(fn):
+            ops.append((name, fn))
+            return fn
+        return deco
+
+    def ents(q):
+        out = []
+        for d in q.column_descriptions:
+            e = d.get("entity")
+            if isinstance(e, type) and e not in out:
+                out.append(e)
+        return out or [A]
+
+    def icol(q, rng):
+        e = rng.choice(ents(q))
+        return getattr(e, rng.choice(["id"] + {"A": ["x", "y"], "B": ["q", "a_id"], "C": ["b_id"]}[e.__name__]))
+
+    @op("filter")
+    def _(q, rng, v):
+        c = icol(q, rng)
+        return q.filter(rng.choice([c > v.next("int"), c != v.next("int"), c.in_([v.next("int"), v.next("int")]), c.is_not(None)]))
+
+    @op("filter_by")
+    def _(q, rng, v):
+        return q.filter_by(id=v.next("int"))
+
+    @op("where")
+    def _(q, rng, v):
+        return q.where(icol(q, rng) < v.next("int"))
+
+    @op("join")
+    def _(q, rng, v):
+        e = ents(q)[0]
+        rel = {"A": ["bs"], "B": ["a", "cs"], "C": ["b"]}[e.__name__]
+        return q.join(getattr(e, rng.choice(rel)), isouter=rng.random() < 0.3)
+
+    @op("outerjoin")
+    def _(q, rng, v):
+        e = ents(q)[0]
+        rel = {"A": ["bs"], "B": ["a", "cs"], "C": ["b"]}[e.__name__]
+        return q.outerjoin(getattr(e, rng.choice(rel)))
+
+    @op("add_entity")
+    def _(q, rng, v):
+        return q.add_entity(rng.choice([A, B, C, orm.aliased(rng.choice([A, B]))]))
+
+    @op("add_columns")
+    def _(q, rng, v):
+        return q.add_columns(icol(q, rng), sa.literal(v.next("int")).label("qlit"))
+
+    @op("with_entities")
+    def _(q, rng, v):
+        e = rng.choice(ents(q))
+        return q.with_entities(e.id, e) if rng.random() < 0.5 else q.with_entities(e)
+
+    @op("options")
+    def _(q, rng, v):
+        e = ents(q)[0]
+        rel = {"A": ["bs"], "B": ["a", "cs"], "C": ["b"]}[e.__name__]
+        loader = rng.choice([orm.selectinload, orm.joinedload, orm.lazyload, orm.subqueryload])
+        return q.options(loader(getattr(e, rng.choice(rel))))
+
+    @op("order_by")
+    def _(q, rng, v):
+        c = icol(q, rng)
+        return q.order_by(rng.choice([c, c.desc()]))
+
+    @op("order_by_none")
+    def _(q, rng, v):
+        return q.order_by(None)
+
+    @op("group_by")
+    def _(q, rng, v):
+        return q.group_by(icol(q, rng))
+
+    @op("having")
+    def _(q, rng, v):
+        return q.having(sa.func.count(icol(q, rng)) > v.next("int"))
+
+    @op("limit")
+    def _(q, rng, v):
+        return q.limit(v.next("posint"))
+
+    @op("offset")
+    def _(q, rng, v):
+        return q.offset(v.next("posint"))
+
+    @op("slice")
+    def _(q, rng, v):
+        a = v.next("posint")
+        return q.slice(a, a + v.next("posint"))
+
+    @op("distinct")
+    def _(q, rng, v):
+        return q.distinct()
+
+    @op("select_from")
+    def _(q, rng, v):
+        return q.select_from(rng.choice(ents(q)))
+
+    @op("enable_eagerloads")
+    def _(q, rng, v):
+        return q.enable_eagerloads(rng.random() < 0.5)
+
+    @op("populate_existing")
+    def _(q, rng, v):
+        return q.populate_existing()
+
+    @op("execution_options")
+    def _(q, rng, v):
+        return q.execution_options(foo=v.next("int"))
+
+    @op("params")
+    def _(q, rng, v):
+        return q.params(zz=v.next("int"))
+
+    @op("with_for_update")
+    def _(q, rng, v):
+        return q.with_for_update(nowait=rng.random() < 0.5)
+
+    @op("correlate")
+    def _(q, rng, v):
+        return q.correlate(rng.choice([A, B]))
+
+    @op("union")
+    def _(q, rng, v):
+        return q.union(q.filter(icol(q, rng) > v.next("int")))
+
+    @op("from_subquery_aliased")
+    def _(q, rng, v):
+        e = ents(q)[0]
+        sub = q.with_entities(e).subquery()
+        return q.session.query(orm.aliased(e, sub)).filter(sa.literal(v.next("int")) != v.next("int"))
+
+    @op("reset_joinpoint")
+    def _(q, rng, v):
+        return q.reset_joinpoint()
+
+    # methods that rebuild the entity list are the ones holding mutable collections: sample them more often
+    ops.extend([o for o in ops if o[0] in ("add_entity", "add_columns", "with_entities", "join", "options")])
+
+    @op("set_label_style")
+    def _(q, rng, v):
+        return q.set_label_style(rng.choice([sa.LABEL_STYLE_TABLENAME_PLUS_COL, sa.LABEL_STYLE_DISAMBIGUATE_ONLY]))
+
+    return ops
+
+
+def query_bases(env, session, rng, vals):
+    E = env.entities
+    A, B, C = E["A"], E["B"], E["C"]
+    c = rng.random()
+    if c < 0.35:
+        return "query(E)", session.query(rng.choice([A, B, C]))
+    if c < 0.5:
+        return "query(E).filter", session.query(A).filter(A.x > vals.next("int"))
+    if c < 0.65:
+        return "query(E, E)", session.query(B, A).join(B.a)
+    if c < 0.8:
+        return "query(cols)", session.query(A.id, A.x)
+    if c < 0.9:
+        return "query(aliased)", session.query(env.orm.aliased(A))
+    return "query(E).options", session.query(B).options(env.orm.joinedload(B.a))
